@@ -38,6 +38,20 @@ def other_row(job):
         "logical_and": lambda: ndx.logical_and(x, x), "sin": lambda: ndx.sin(x),
         "where_cond": lambda: ndx.where(x, 1, 2),
     }
+    if fn.startswith("mix:"):
+        # a secondary operand of another kind next to a numeric primary operand
+        num = ndx.asarray(np.array([[1, 2], [3, 4]], dtype=np.int64)) if mode == "eager" else ndx.array(shape=("N", 2), dtype=ndx.int64)
+        one = ndx.asarray(np.array([1, 2, 3], dtype=np.int64)) if mode == "eager" else ndx.array(shape=("M",), dtype=ndx.int64)
+        flat = ndx.reshape(x, (-1,)) if d != "struct" else x
+        mixed = {
+            "mix:searchsorted-x2": lambda: ndx.searchsorted(one, flat),
+            "mix:searchsorted-x1": lambda: ndx.searchsorted(flat, one),
+            "mix:clip-min": lambda: ndx.clip(num, min=x),
+            "mix:clip-max": lambda: ndx.clip(num, max=x),
+            "mix:concat": lambda: ndx.concat([num, x], axis=0),
+            "mix:matmul": lambda: ndx.matmul(num, x),
+        }
+        return tables.outcome(mixed[fn])
     if "@" in fn:
         # the same function with an explicit accumulator / result dtype: a keyword must not open a side door
         base, acc = fn.split("@")
@@ -61,6 +75,14 @@ NUMERIC_ONLY = ["sum", "prod", "mean", "var", "std", "max", "min", "cumulative_s
 def other_law(fn, d):
     """'raises' | 'free' for the second table (domains from the Array API standard)."""
     core = d[1:] if d.startswith("n") and d != "n" and d[1:] in ALL_DTYPES else d
+    if fn.startswith("mix:"):
+        if d == "struct" or core == "utf8":
+            return "raises"
+        if core == "bool":
+            # searching is an ordering function of numeric arrays; promotion of a boolean operand next to a numeric one
+            # (matmul, clip bounds, concat) follows result_type and is not demanded to fail
+            return "raises" if fn in ("mix:searchsorted-x2", "mix:searchsorted-x1") else "free"
+        return "free"
     fn = fn.split("@")[0]
     if d == "struct":
         return "raises"        # the user dtype implements nothing
@@ -94,6 +116,7 @@ def run(ctx: common.Ctx):
     fns = ["sum", "prod", "mean", "var", "std", "max", "min", "cumulative_sum", "argmax", "argmin",
            "sort", "argsort", "matmul", "tril", "triu", "clip", "all", "any", "abs_method",
            "neg_method", "invert_method", "add", "equal", "less", "logical_and", "sin", "where_cond"]
+    fns += ["mix:searchsorted-x2", "mix:searchsorted-x1", "mix:clip-min", "mix:clip-max", "mix:concat", "mix:matmul"]
     fns += [f"{f}@{acc}" for f in ("sum", "prod", "cumulative_sum", "var", "std") for acc in ("float64", "int64", "float32")]
     jobs = [(fn, d, mode) for fn in fns for d in ALL_DTYPES + ["struct"] for mode in ("lazy", "eager")]
     if ctx.tier == "quick":
